@@ -9,6 +9,7 @@
 #include "garbage_collection.h"
 #include "interior_node.h"
 #include "thread_info_table.h"
+#include "verif_hook.h"
 #include <atomic>
 #include <thread>
 
@@ -17,9 +18,11 @@ namespace yakushima {
 class epoch_manager {
 public:
     static void epoch_thread() {
+        YAKUSHIMA_VERIF_THREAD_BEGIN(TH_EPOCH);
         for (;;) {
             sleepMs(YAKUSHIMA_EPOCH_TIME);
             for (;;) {
+                YAKUSHIMA_VERIF_YIELD(Y_LOAD | Y_CAT_EPOCH, nullptr);
                 Epoch cur_epoch = epoch_management::get_epoch();
                 bool verify{true};
                 for (auto&& elem : thread_info_table::get_thread_info_table()) {
@@ -38,6 +41,8 @@ public:
                  */
                 if (kEpochThreadEnd.load(std::memory_order_acquire)) break;
             }
+            YAKUSHIMA_VERIF_YIELD(Y_STORE | Y_CAT_EPOCH, nullptr);
+            YAKUSHIMA_VERIF_EVENT(EV_EPOCH_INC, nullptr, 0, 0);
             epoch_management::epoch_inc();
 
             /**
@@ -61,14 +66,17 @@ public:
             }
             if (kEpochThreadEnd.load(std::memory_order_acquire)) { break; }
         }
+        YAKUSHIMA_VERIF_THREAD_END(TH_EPOCH);
     }
 
     static void gc_thread() {
+        YAKUSHIMA_VERIF_THREAD_BEGIN(TH_GC);
         for (;;) {
             sleepMs(YAKUSHIMA_EPOCH_TIME);
             thread_info_table::gc();
             if (kGCThreadEnd.load(std::memory_order_acquire)) { break; }
         }
+        YAKUSHIMA_VERIF_THREAD_END(TH_GC);
     }
 
     static void invoke_epoch_thread() {
